@@ -10,6 +10,7 @@ import (
 	"strings"
 	"time"
 
+	"gosym/corpus"
 	"gosym/drivers"
 	"gosym/interp"
 	"gosym/term"
@@ -23,6 +24,14 @@ func main() {
 	switch os.Args[1] {
 	case "exec":
 		cmdExec(os.Args[2:])
+	case "shapes":
+		tier := "quick"
+		if len(os.Args) > 2 {
+			tier = os.Args[2]
+		}
+		for _, p := range corpus.Shapes(tier) {
+			fmt.Printf("%s\t%s\n", p.Name, p.Shape)
+		}
 	case "worker":
 		drivers.Worker(os.Args[2], os.Args[3])
 	case "run":
@@ -107,6 +116,13 @@ var checks = map[string]struct {
 	prep  func(*drivers.Ctx) (*drivers.Prepared, error)
 	level string
 }{
+	"C01": {drivers.PrepareC01, "model_checking"},
+	"C02": {drivers.PrepareC02, "model_checking"},
+	"C03": {drivers.PrepareC03, "model_checking"},
+	"C05": {drivers.PrepareC05, "model_checking"},
+	"C06": {drivers.PrepareC06, "model_checking"},
+	"C07": {drivers.PrepareC07, "model_checking"},
+	"C08": {drivers.PrepareC08, "model_checking"},
 	"C20": {drivers.PrepareC20, "model_checking"},
 }
 
@@ -135,7 +151,13 @@ func newCtx(id, tier string) (*drivers.Ctx, func()) {
 		fmt.Sscanf(s, "%d", &par)
 	}
 	ctx := &drivers.Ctx{ID: id, Tier: tier, Seed: seed, Work: work, Par: par, Verif: verif, Repo: repo}
-	return ctx, func() { os.RemoveAll(work) }
+	return ctx, func() {
+		if os.Getenv("VERIF_KEEP") != "" {
+			fmt.Fprintln(os.Stderr, "keeping work dir", work)
+			return
+		}
+		os.RemoveAll(work)
+	}
 }
 
 func cmdRun(args []string) int {
